@@ -645,3 +645,265 @@ theorem clean_of_nt {l : List Item} (h : ∀ it ∈ l, it.isTorn = false) : clea
   intro it hit; simp [h it hit]
 
 end Uft.Shmem
+
+namespace Uft.Crash
+open Uft.Shmem Uft.Writers
+
+/-! ### the crash handler -/
+
+/-- every frame that is not skipped (NORECORD / DISABLED) has its ENTRY written -/
+def AllW (fs : List Mcount.Frame) : Prop := ∀ f ∈ fs, f.skip = false → f.written = true
+
+/-- record_trace_data's premise (lines 1090-1116): below a written frame everything is written -/
+def WClosed : List Mcount.Frame → Prop
+  | [] => True
+  | f :: r => (f.written = true → AllW r) ∧ WClosed r
+
+theorem flushBelow_allW : ∀ (fs : List Mcount.Frame), WClosed fs → AllW (Mcount.flushBelow fs).1
+  | [], _ => by intro f hf; simp [Mcount.flushBelow] at hf
+  | f :: r, h => by
+    unfold Mcount.flushBelow
+    by_cases hw : f.written = true
+    · simp only [hw, if_true]
+      intro g hg _
+      simp only [List.mem_cons] at hg
+      rcases hg with hg | hg
+      · rw [hg]; exact hw
+      · exact h.1 hw g hg ‹_›
+    · simp only [hw, Bool.false_eq_true, if_false]
+      have ih := flushBelow_allW r h.2
+      split
+      · rename_i hs
+        intro g hg hgs
+        simp only [List.mem_cons] at hg
+        rcases hg with hg | hg
+        · rw [hg] at hgs; simp [hs] at hgs
+        · exact ih g hg hgs
+      · intro g hg hgs
+        simp only [List.mem_cons] at hg
+        rcases hg with hg | hg
+        · rw [hg]
+        · exact ih g hg hgs
+
+theorem flushBelow_recs : ∀ (fs : List Mcount.Frame), WClosed fs →
+    ∀ f ∈ fs, f.skip = false → f.written = false → Mcount.entryRec f ∈ (Mcount.flushBelow fs).2
+  | [], _ => by intro f hf; simp at hf
+  | g :: r, h => by
+    intro f hf hfs hfw
+    unfold Mcount.flushBelow
+    by_cases hw : g.written = true
+    · exfalso
+      simp only [List.mem_cons] at hf
+      rcases hf with hf | hf
+      · rw [hf] at hfw; rw [hw] at hfw; simp at hfw
+      · have := h.1 hw f hf hfs; rw [this] at hfw; simp at hfw
+    · simp only [hw, Bool.false_eq_true, if_false]
+      simp only [List.mem_cons] at hf
+      have ih := flushBelow_recs r h.2
+      split
+      · rename_i hs
+        rcases hf with hf | hf
+        · rw [hf] at hfs; simp [hs] at hfs
+        · exact ih f hf hfs hfw
+      · rcases hf with hf | hf
+        · rw [hf]; simp
+        · simp only [List.mem_append]; exact Or.inl (ih f hf hfs hfw)
+
+/-- shape of record_trace_data's result -/
+theorem recordTrace_top (top : Mcount.Frame) (rest : List Mcount.Frame) :
+    ∃ top2, (Mcount.recordTrace (top :: rest)).1 =
+        top2 :: (if top.written then rest else (Mcount.flushBelow rest).1) ∧
+      top2.skip = top.skip ∧ (top.skip = false → top2.written = true) := by
+  unfold Mcount.recordTrace
+  cases hw : top.written <;> cases hn : top.norecord <;> cases hd : top.disabled <;>
+    by_cases hx : (top.endT != 0) = true <;>
+    simp [hw, hn, hd, hx, Mcount.Frame.skip]
+
+/-- after record_trace_data on the top frame every open, non-skipped frame is written … -/
+theorem recordTrace_allW {fs : List Mcount.Frame} (h : WClosed fs) : AllW (Mcount.recordTrace fs).1 := by
+  cases fs with
+  | nil => intro f hf; simp [Mcount.recordTrace] at hf
+  | cons top rest =>
+    obtain ⟨top2, e, hsk, hwr⟩ := recordTrace_top top rest
+    rw [e]
+    intro g hg hgs
+    simp only [List.mem_cons] at hg
+    rcases hg with hg | hg
+    · rw [hg] at hgs ⊢; exact hwr (by rw [← hsk]; exact hgs)
+    · by_cases hw : top.written = true
+      · simp only [hw, if_true] at hg; exact h.1 hw g hg hgs
+      · simp only [hw, Bool.false_eq_true, if_false] at hg
+        exact flushBelow_allW rest h.2 g hg hgs
+
+/-- … and the ENTRY of each one that was not is among the records handed to the buffer -/
+theorem recordTrace_recs {fs : List Mcount.Frame} (h : WClosed fs) :
+    ∀ f ∈ fs, f.skip = false → f.written = false → Mcount.entryRec f ∈ (Mcount.recordTrace fs).2 := by
+  cases fs with
+  | nil => intro f hf; simp at hf
+  | cons top rest =>
+    intro f hf hfs hfw
+    unfold Mcount.recordTrace
+    simp only [List.mem_cons] at hf
+    by_cases hw : top.written = true
+    · exfalso
+      rcases hf with hf | hf
+      · rw [hf, hw] at hfw; simp at hfw
+      · have := h.1 hw f hf hfs; rw [this] at hfw; simp at hfw
+    · have hw' : top.written = false := by simpa using hw
+      simp only [hw', Bool.false_eq_true, if_false, Bool.not_false, Bool.true_and]
+      rcases hf with hf | hf
+      · rw [hf] at hfs
+        simp [hf, hfs]
+      · simp only [List.mem_append]
+        exact Or.inl (Or.inl (flushBelow_recs rest h.2 f hf hfs hfw))
+
+/-- the shadow stack keeps `WClosed`: a new call is pushed unwritten, a return pops the top, and
+    record_trace_data itself leaves it closed -/
+theorem WClosed_push {fs : List Mcount.Frame} (f : Mcount.Frame) (hf : f.written = false) (h : WClosed fs) :
+    WClosed (f :: fs) := ⟨by simp [hf], h⟩
+
+theorem WClosed_tail {f : Mcount.Frame} {fs : List Mcount.Frame} (h : WClosed (f :: fs)) : WClosed fs := h.2
+
+
+/-! ### the shutdown measure -/
+
+def wcost (w : Warg) : Nat := 2 * w.head.length + 4 * w.bufs.length + (if w.tid.isSome then 1 else 0)
+def poolCost (p : Pool) : Nat := 4 * p.writeList.length + (p.writers.map wcost).sum
+
+theorem mu_eq (s : State) : mu s = 6 * s.pipe.length + 5 * s.shmemList.length + poolCost s.pool := by
+  have : (fun w : Warg => 2 * w.head.length + 4 * w.bufs.length + (if w.tid.isSome then 1 else 0)) = wcost := rfl
+  simp only [mu, poolCost, this]; omega
+
+theorem sum_replace (l1 l2 : List Warg) (w : Warg) :
+    ((l1 ++ w :: l2).map wcost).sum = (l1.map wcost).sum + wcost w + (l2.map wcost).sum := by
+  simp [List.sum_append, Nat.add_assoc]
+
+theorem enqueue_cost (p : Pool) (wb : WBuf) : poolCost (p.enqueue wb) = poolCost p + 4 := by
+  unfold Pool.enqueue
+  cases hh : handTo wb p.writers with
+  | none => simp [poolCost]; omega
+  | some ws' =>
+    obtain ⟨l1, w, l2, e, _, e'⟩ := handTo_some hh
+    simp only [poolCost]
+    rw [e', e, sum_replace, sum_replace]
+    simp [wcost]; omega
+
+theorem popHead_cost {p p' : Pool} {i : Nat} {wb : WBuf} (h : p.popHead i = some (p', wb)) :
+    poolCost p' + 2 = poolCost p := by
+  obtain ⟨l1, w, l2, rest, e, hh, e'⟩ := popHead_some h
+  subst e'
+  simp only [poolCost]
+  rw [e, sum_replace, sum_replace]
+  simp [wcost, hh]; omega
+
+theorem splice_cost {p p' : Pool} {i : Nat} (h : p.splice i = some p') : poolCost p' < poolCost p := by
+  obtain ⟨l1, w, l2, t0, e, ht, hh, e'⟩ := splice_some h
+  subst e'
+  simp only [poolCost]
+  rw [e, sum_replace, sum_replace]
+  by_cases hb : w.bufs = []
+  · simp [wcost, hb, ht, hh]
+  · have : w.bufs.length > 0 := List.length_pos_iff.mpr hb
+    simp [wcost, hb, ht, hh, List.isEmpty_iff]; omega
+
+theorem popRemaining_cost {p p' : Pool} {wb : WBuf} (h : p.popRemaining = some (p', wb)) :
+    poolCost p' + 4 = poolCost p := by
+  obtain ⟨rest, _, hl, e'⟩ := popRemaining_some h
+  subst e'
+  simp [poolCost, hl]; omega
+
+theorem mu_recordMmap_le (s : State) (wb : WBuf) : mu (recordMmap s wb) ≤ mu s + 4 := by
+  unfold recordMmap
+  split
+  · omega
+  · split
+    · simp only [mu_eq, enqueue_cost]; omega
+    · omega
+
+theorem mu_writeOut (s : State) (wb : WBuf) (fl : Bool) : mu (writeOut s wb fl) = mu s := by
+  unfold writeOut
+  cases hb : (s.prod wb.tid).bufs[wb.idx]? <;> simp only [hb] <;> rfl
+
+theorem mu_setProd (s : State) (t : Tid) (p : Prod) : mu (s.setProd t p) = mu s := rfl
+
+/-- every action of the shutdown sequence strictly decreases the measure -/
+theorem mu_step {cfg : Cfg} {s s' : State} {a : Action} (ha : isShutdownAct a = true)
+    (hs : step cfg s a = some s') : mu s' < mu s := by
+  cases a with
+  | rRead =>
+    simp only [step] at hs
+    split at hs
+    · simp at hs
+    · rename_i t i rest hp
+      injection hs with hs; subst hs
+      simp [mu_eq, hp]; omega
+    · rename_i t i rest hp
+      injection hs with hs; subst hs
+      have := mu_recordMmap_le { s with pipe := rest, shmemList := s.shmemList.erase ⟨t, i⟩ } ⟨t, i⟩
+      have hl := List.length_erase_le (a := (⟨t, i⟩ : WBuf)) (l := s.shmemList)
+      simp only [mu_eq, hp, List.length_cons] at this ⊢
+      omega
+    · rename_i t n rest hp
+      injection hs with hs; subst hs
+      simp [mu_eq, hp]
+    · rename_i rest hp
+      injection hs with hs; subst hs
+      simp [mu_eq, hp]
+  | rFlush t i =>
+    simp only [step] at hs
+    split at hs
+    · rename_i hg
+      simp only [Bool.and_eq_true, List.contains_iff_mem] at hg
+      have hmem := hg.1.1
+      injection hs with hs; subst hs
+      have := mu_recordMmap_le (({ s with shmemList := s.shmemList.erase ⟨t, i⟩ } : State).setProd t
+        { s.prod t with opn := if (s.prod t).opn = some i then none else (s.prod t).opn }) ⟨t, i⟩
+      have hl := List.length_erase_of_mem hmem
+      have hpos : s.shmemList.length > 0 := List.length_pos_of_mem hmem
+      simp only [mu_eq, setProd_pipe, setProd_shm, setProd_pool] at this ⊢
+      omega
+    · simp at hs
+  | rRemaining =>
+    simp only [step] at hs
+    split at hs
+    · simp at hs
+    · split at hs
+      · rename_i pool wb hp
+        injection hs with hs; subst hs
+        rw [mu_writeOut]
+        have := popRemaining_cost hp
+        simp only [mu_eq]; omega
+      · simp at hs
+  | wWrite w =>
+    simp only [step] at hs
+    split at hs
+    · rename_i pool wb hp
+      injection hs with hs; subst hs
+      rw [mu_writeOut]
+      have := popHead_cost hp
+      simp only [mu_eq]; omega
+    · simp at hs
+  | wSplice w =>
+    simp only [step] at hs
+    split at hs
+    · rename_i pool hp
+      injection hs with hs; subst hs
+      have := splice_cost hp
+      simp only [mu_eq]; omega
+    · simp at hs
+  | _ => simp [isShutdownAct] at ha
+
+/-- hence every schedule of shutdown actions is at most `mu s` steps long -/
+theorem run_shutdown_bounded {cfg : Cfg} : ∀ (acts : List Action) (s s' : State),
+    (∀ a ∈ acts, isShutdownAct a = true) → run cfg s acts = some s' → acts.length + mu s' ≤ mu s
+  | [], s, s', _, h => by simp [run] at h; subst h; simp
+  | a :: as, s, s', ha, h => by
+    simp only [run] at h
+    split at h
+    · rename_i s1 hs1
+      have h1 := mu_step (ha a (by simp)) hs1
+      have h2 := run_shutdown_bounded as s1 s' (fun b hb => ha b (by simp [hb])) h
+      simp only [List.length_cons]; omega
+    · simp at h
+
+end Uft.Crash
